@@ -376,7 +376,7 @@ def SafeL (x : Option (Except Err (List GLayer))) : Prop :=
   | some y => Safe y
   | none => True
 
-theorem ggufLayersLoop_safe (bs : Bytes) (B : Nat) (hB : 16 * bs.length ≤ B) (maxSeek : Nat) :
+theorem ggufLayersLoop_safe (bs : Bytes) (B : Nat) (hB : bs.length ≤ B) (maxSeek : Nat) :
     ∀ (fuel offset : Nat) (acc : List GLayer), SafeL (ggufLayersLoop bs (some B) Guards.all maxSeek fuel offset acc) := by
   intro fuel
   induction fuel with
@@ -407,7 +407,7 @@ theorem ggufLayersLoop_safe (bs : Bytes) (B : Nat) (hB : 16 * bs.length ≤ B) (
 /-- **`ggufLayers` is safe on every byte string**: no panic, no allocation above 16 bytes per input
     byte (+ the same budget as the decoder), whatever the upload contains and however many models
     it holds. -/
-theorem ggufLayers_safe (bs : Bytes) (B : Nat) (hB : 16 * bs.length ≤ B) (maxSeek : Nat) :
+theorem ggufLayers_safe (bs : Bytes) (B : Nat) (hB : bs.length ≤ B) (maxSeek : Nat) :
     SafeL (ggufLayers bs (some B) Guards.all maxSeek) := by
   unfold ggufLayers
   simp only []
